@@ -10,7 +10,7 @@ text produces one), `dupT` (two terminals of one name), `selfH` (a rule that is 
 structure Regular (fx : Fixes) (f : File) : Prop where
   alts : ∀ r, r ∈ f.ruleList → r.alts ≠ []
   dupT : fx.dupNameErr = true ∨ f.dupTerminal = false
-  selfH : f.selfHelper fx = false
+  selfH : fx.helperClashErr = true ∨ f.selfHelper fx = false
 
 theorem Safe.regular {fx : Fixes} {f : File} (h : Safe fx f) : Regular fx f := ⟨h.alts, h.dupT, h.selfH⟩
 
@@ -106,7 +106,7 @@ theorem build_facts {fx : Fixes} {f : File} {g : Grammar} (hr : Regular fx f) (h
   have hrl' : f.ruleList = r0 :: rs := by simp [File.ruleList, hrl]
   have hw : ∀ r, r ∈ r0 :: rs → RuleAvoids (ctxOf fx f ts) r ∧ r.alts ≠ [] := by
     intro r hrm
-    exact ⟨ruleAvoids_of_selfHelper hts hr.selfH r (hrl' ▸ hrm), hr.alts r (hrl' ▸ hrm)⟩
+    exact ⟨ruleAvoids_of_ext hr.selfH hts hrl' hext r (hrl' ▸ hrm), hr.alts r (hrl' ▸ hrm)⟩
   obtain ⟨hN, _, _⟩ := extract_nts hw hext
   rw [hname] at hstart
   have hNone := extract_allNone hext
